@@ -19,6 +19,7 @@ import (
 	"math/rand"
 	"os"
 	"runtime"
+	"runtime/debug"
 	"sort"
 	"strings"
 	"time"
@@ -227,7 +228,7 @@ func randTree(rng *rand.Rand, d int, exact bool) *tree {
 
 // ---------------------------------------------------------------------------------------------
 // Operand supplies: per operand 'N' nullable Boolean column, 'B' non-nullable Boolean column,
-// 'L' literal.
+// 'L' literal, 'C' a comparison (strict function) over a nullable Int column.
 
 type supply [3]byte
 
@@ -256,6 +257,10 @@ func buildTable(s supply) *suppliedTable {
 		case 'B':
 			fields = append(fields, physical.SchemaField{Name: names[i], Type: octosql.Boolean})
 			cols = append(cols, i)
+		case 'C':
+			// the operand is the comparison (i<name> < 1) over a nullable Int column: 0 -> TRUE, 5 -> FALSE, NULL -> NULL
+			fields = append(fields, physical.SchemaField{Name: "i" + names[i], Type: octosql.TypeSum(octosql.Int, octosql.Null)})
+			cols = append(cols, i)
 		}
 	}
 	st := &suppliedTable{}
@@ -265,6 +270,10 @@ func buildTable(s supply) *suppliedTable {
 		if k == len(cols) {
 			vals := []octosql.Value{octosql.NewInt(int64(len(st.rows)))}
 			for _, c := range cols {
+				if s[c] == 'C' {
+					vals = append(vals, []octosql.Value{octosql.NewInt(5), octosql.NewInt(0), octosql.NewNull()}[asg[c]])
+					continue
+				}
 				vals = append(vals, tvValue(asg[c]))
 			}
 			st.rows = append(st.rows, asg)
@@ -293,9 +302,9 @@ var allSupplies []supply
 var tables = map[supply]*suppliedTable{}
 
 func init() {
-	for _, x := range "NBL" {
-		for _, y := range "NBL" {
-			for _, z := range "NBL" {
+	for _, x := range "NBLC" {
+		for _, y := range "NBLC" {
+			for _, z := range "NBLC" {
 				s := supply{byte(x), byte(y), byte(z)}
 				allSupplies = append(allSupplies, s)
 				tables[s] = buildTable(s)
@@ -383,6 +392,9 @@ func (j *judge) checkTree(id string, t *tree, s supply, variant int, whereSample
 		x := la
 		for i := 0; i < 3; i++ {
 			leaves[i] = names[i]
+			if s[i] == 'C' {
+				leaves[i] = "(i" + names[i] + " < 1)"
+			}
 		}
 		for _, i := range lits {
 			litAsg[i] = []tv{T, F, N}[x%3]
@@ -596,34 +608,35 @@ func Run(c *core.Ctx) core.FinishOpts {
 	only := pipex.OnlyID(c)
 	j := &judge{c: c, ctx: ctx}
 	workers := runtime.NumCPU()
+	defer debug.SetGCPercent(debug.SetGCPercent(400)) // allocation-heavy, tiny live heap
 
-	pure := []supply{{'N', 'N', 'N'}, {'B', 'B', 'B'}, {'L', 'L', 'L'}}
+	pure := []supply{{'N', 'N', 'N'}, {'B', 'B', 'B'}, {'L', 'L', 'L'}, {'C', 'C', 'C'}}
 	var mixed []supply
 	for _, s := range allSupplies {
-		if s != pure[0] && s != pure[1] && s != pure[2] {
+		if s != pure[0] && s != pure[1] && s != pure[2] && s != pure[3] {
 			mixed = append(mixed, s)
 		}
 	}
 
 	// exhaustive part: every tree of depth <= 2 under the three pure supplies and under two of the
-	// 24 mixed supplies (rotating with the tree index, so every mixed supply is used)
+	// 60 mixed supplies (rotating with the tree index, so every mixed supply is used)
 	ex := allTrees(2)
 	c.Note("exhaustive_trees_depth_le_2", len(ex))
-	c.Note("exhaustive_bound", "all trees of depth <= 2 over operands a,b,c and {AND, OR, NOT, IS NULL, IS NOT NULL}; all 27 assignments; supplies NNN, BBB (8 assignments), LLL + 2 mixed supplies per tree; WHERE with optimizer off/on x pushdown off/on")
+	c.Note("exhaustive_bound", "all trees of depth <= 2 over operands a,b,c and {AND, OR, NOT, IS NULL, IS NOT NULL}; all 27 assignments; supplies NNN, BBB (8 assignments), CCC (operands are comparisons over nullable Int columns), LLL + 2 of the 60 mixed supplies per tree; WHERE with optimizer off/on x pushdown off/on")
 	core.Parallel(len(ex), workers, func(i int) {
 		t := ex[i]
-		for k, s := range []supply{pure[0], pure[1], pure[2], mixed[(2*i)%len(mixed)], mixed[(2*i+1)%len(mixed)]} {
+		for k, s := range []supply{pure[0], pure[1], pure[3], pure[2], mixed[(2*i)%len(mixed)], mixed[(2*i+1)%len(mixed)]} {
 			id := fmt.Sprintf("ex-%d-%s", i, string(s[:]))
 			if only != "" && only != id {
 				continue
 			}
-			if k < 2 {
+			if k < 3 {
 				// column supplies: all four optimizer/pushdown variants
 				for v := 0; v < 4; v++ {
-					j.checkTree(id, t, s, v)
+					j.checkTree(id, t, s, v, 0, 0)
 				}
 			} else {
-				j.checkTree(id, t, s, (i+k)%4)
+				j.checkTree(id, t, s, (i+k)%4, 0, 0)
 			}
 		}
 		c.Count("trees/exhaustive", 1)
@@ -638,12 +651,14 @@ func Run(c *core.Ctx) core.FinishOpts {
 	}
 	core.Parallel(nRnd, workers, func(i int) {
 		t := rnd[i]
-		for k, s := range []supply{pure[0], pure[1], pure[2], mixed[i%len(mixed)]} {
+		for k, s := range []supply{pure[0], pure[1], pure[2], pure[3], mixed[i%len(mixed)]} {
 			id := fmt.Sprintf("rnd-%d-%s", i, string(s[:]))
 			if only != "" && only != id {
 				continue
 			}
-			j.checkTree(id, t, s, (i+k)%4)
+			// random trees: the WHERE form with literal operands covers 9 of the 27 literal
+			// assignments (rotating with the tree index); the select form covers all 27
+			j.checkTree(id, t, s, (i+k)%4, 9, i)
 		}
 		c.Count("trees/random_depth3", 1)
 		if i%997 == 0 {
@@ -661,7 +676,7 @@ func Run(c *core.Ctx) core.FinishOpts {
 	return core.FinishOpts{
 		Level: "exploration",
 		Rule: "boolean trees over operands a,b,c and {AND, OR, NOT, IS NULL, IS NOT NULL}: exhaustive to depth 2, seeded random at depth 3; each under all 27 assignments " +
-			"(8 for non-nullable columns) per supply (nullable column / non-nullable column / literal per operand), as select expression and as WHERE; " +
+			"(8 for non-nullable columns) per supply (nullable column / non-nullable column / literal / comparison over a nullable Int column, per operand), as select expression and as WHERE; " +
 			"non-trivial = at least one operator and a non-constant truth table over the evaluated assignments; distinct by (supply, tree). " +
 			"Strict-function cases: non-trivial = a NULL in some argument position; distinct by (function, argument types, nullable positions, NULL position)",
 		Floor:       c.Pick(8000, 200000),
